@@ -145,6 +145,22 @@ package tracing
 //@             is(evval(ev(old(evlen))), subscription) && evval(ev(old(evlen))).(subscription).channel == channel &&
 //@             isRecv(ev(old(evlen) + 1)) && evch(ev(old(evlen) + 1)) == evval(ev(old(evlen))).(subscription).ok
 
+// Unsubscribing never deadlocks with the broadcaster: the broadcaster delivers with blocking sends, so while the
+// request is pending (and until it is acknowledged) the caller keeps taking traces from the very channel it is
+// unsubscribing — every turn of its loop blocks in one select that offers that receive, the request, the
+// acknowledgement and the tracer's end, and it blocks nowhere else.  The request is handed over at most ... times
+// is not claimed (the loop may offer it again after it was taken; the broadcaster ignores an absent channel).
+//@ func (*tracer).Unsubscribe
+//@   prop C09
+//@   modifies nothing
+//@   loop 1 for
+//@     blocks only in select
+//@     offers <-channel
+//@     offers <-okChan
+//@     invariant okChan != nil && fresh(okChan) && unsub.channel == channel && unsub.ok == okChan
+//@     iter ensures [a-turn-sends-nothing-but-the-request] forall p int :: old(evlen) <= p && p < evlen && isSend(ev(p)) ==>
+//@             evch(ev(p)) == t.unSubscription && is(evval(ev(p)), unSubscription) && evval(ev(p)).(unSubscription).channel == channel
+
 //@ func (*tracer).RegisterSender
 //@   prop C09 C07
 //@   modifies nothing
@@ -172,8 +188,14 @@ package tracing
 
 // Creating a tracer or a relay seen from a caller that only wires them up: opaque events (their goroutines are
 // under their own contracts above).
+// (What NewTracer builds is checked against its body: the broadcaster's termination branch does not drain, so a trace
+// accepted by Send must already be with the broadcaster — the ingress channel and the two request channels are
+// rendezvous channels.)
 //@ func NewTracer
 //@   assumed
+//@   prop C09 C07
+//@   assert before "go t.run(ctx)" [sending-is-a-rendezvous-with-the-broadcaster] chancap(t.traces) == 0 && chancap(t.subscription) == 0 && chancap(t.unSubscription) == 0 &&
+//@             t.traces != nil && t.subscription != nil && t.unSubscription != nil && t.terminate != nil && t.done != nil
 //@   flag countcalls
 //@   flag emits opaque
 //@   flag allocs
